@@ -14,6 +14,18 @@
     opt name b rest   presence byte (0/1) then the section `b` when present
     rep cnt name b    count (primitive `cnt`) then `b` once per element of the slice/table `name`
     wrap b            `b` written to a sub-stream that travels as one blob
+    times n name b    `b` exactly n times (`for i < CONST`), elements `name[i]`
+    sub name b        a struct-valued field: `b` under the path prefix `name.`
+    kfld / key        a field that selects what follows: the writer layout is given for one value `k`
+                      of it (`kfld`, guard `x name = k`); the reader binds it to a local (`key`) and
+                      dispatches on the local
+    mopt m / vopt v   optional section whose presence byte is `m` (writer) and is bound to the
+                      local `v` by the reader (`ver := in.ReadByte(); if ver > 0 {…}`)
+    mrep m / vrep v   optional table: writer `0` when nil, else marker `m`, decimal count, rows;
+                      reader: `ver := ReadByte()`, 0 = absent, `<= 8` = the byte is the length of the
+                      decimal count (older layout), else a decimal count follows; `ver` is a local
+    srep cnt b        reader: a counted loop whose rows are read and dropped
+    avail b           reader: `if in.Available() == 0 { return }`, then `b`
     hdr               the common pack header (Golib.Layout.Header)
     unknown why       a shape the translator could not transcribe (never agrees with anything)
 
@@ -63,6 +75,11 @@ inductive Prim where
   | imapV          -- … of static type *IntMapValue (tag 81 + body)
   | mapBody        -- MapValue.Write / MapValue.Read: body without the tag
   | imapBody       -- IntMapValue.Write / .Read
+  | u16            -- WriteShort(int16(x)) of a wider field, read back `& 0xffff`: the low 16 bits, unsigned
+  | a8I16          -- one-byte count, then int16s (CounterPack1.writeShortArray; nil travels as empty)
+  | b24            -- WriteInt3(len) + raw bytes (StatGeneralPack's cached table bytes)
+  | anylist        -- a typed list of util/list behind its type byte: 1 int, 2 long (decimals),
+                   --   3 float, 4 double (bit patterns), 5 string; 3-byte count
 deriving DecidableEq, Repr
 
 /-- range of the Go type of the field (the wire primitive may be wider, e.g. a decimal) -/
@@ -78,6 +95,29 @@ def Rng.ok : Rng → Int → Prop
   | .i16, v => inRange 2 v
   | .i32, v => inRange 4 v
   | .i64, v => inRange 8 v
+
+/-- a list behind a signed `w`-byte count -/
+def encList (w : Nat) (enc : α → Bytes) (xs : List α) : Bytes := encI w xs.length ++ encMany enc xs
+def decList (w : Nat) (dec : P α) : P (List α) :=
+  P.bind (rdI w) (fun n => if n < 0 then .fail else decMany dec n.toNat)
+
+def encAnyList : Val → Bytes
+  | .ints (1 :: xs) => 1 :: encList 3 encDecimal xs
+  | .ints (2 :: xs) => 2 :: encList 3 encDecimal xs
+  | .ints (3 :: xs) => 3 :: encList 3 (fun v : Int => beN 4 v.toNat) xs
+  | .ints (4 :: xs) => 4 :: encList 3 (fun v : Int => beN 8 v.toNat) xs
+  | .strs xs => 5 :: encList 3 encBlob xs
+  | _ => []
+
+/-- `StatGeneralPack.create(t)` then the list's `Read`: any type byte other than 1..4 is a string list -/
+def decAnyList : P Val :=
+  .read 1 (fun b =>
+    match b.headD 0 with
+    | 1 => P.map (fun xs => Val.ints (1 :: xs)) (decList 3 decDecimal)
+    | 2 => P.map (fun xs => Val.ints (2 :: xs)) (decList 3 decDecimal)
+    | 3 => P.map (fun xs => Val.ints (3 :: xs.map Int.ofNat)) (decList 3 (rdU 4))
+    | 4 => P.map (fun xs => Val.ints (4 :: xs.map Int.ofNat)) (decList 3 (rdU 8))
+    | _ => P.map Val.strs (decList 3 decBlob))
 
 namespace Prim
 
@@ -103,6 +143,10 @@ def encode : Prim → Val → Bytes
   | .imapV, .value v => Value.encV v
   | .mapBody, .value v => (Value.encV v).tail
   | .imapBody, .value v => (Value.encV v).tail
+  | .u16, .int v => encI 2 v
+  | .a8I16, .ints xs => beN 1 xs.length ++ encMany (encI 2) xs
+  | .b24, .bytes bs => encI 3 bs.length ++ bs
+  | .anylist, v => encAnyList v
   | _, _ => []
 
 def ofP (p : P α) (f : α → Val) : Dec Val := fun bs => (P.run p bs).map (fun (a, r) => (f a, r))
@@ -129,6 +173,10 @@ def decode : Prim → Dec Val
   | .imapV => fun bs => (Value.decode bs).map (fun (v, r) => (.value v, r))
   | .mapBody => fun bs => (Value.decode (80 :: bs)).map (fun (v, r) => (.value v, r))
   | .imapBody => fun bs => (Value.decode (81 :: bs)).map (fun (v, r) => (.value v, r))
+  | .u16 => ofP (rdU 2) (fun n => .int n)
+  | .a8I16 => ofP (P.bind (rdU 1) (fun n => decMany (rdI 2) n)) .ints
+  | .b24 => ofP (P.bind (rdI 3) (fun n => if n < 0 then .fail else rdBytes n.toNat)) .bytes
+  | .anylist => ofP decAnyList id
 
 end Prim
 
@@ -164,6 +212,16 @@ inductive L where
   | rep (cnt : Prim) (name : String) (body : L) (rest : L)
   | wrap (body : L) (rest : L)
   | hdr (rest : L)
+  | times (n : Nat) (name : String) (body : L) (rest : L)
+  | sub (name : String) (body : L) (rest : L)
+  | kfld (name : String) (p : Prim) (k : Int) (rest : L)
+  | key (name : String) (p : Prim) (v : String) (rest : L)
+  | mopt (m : Nat) (name : String) (body : L) (rest : L)
+  | vopt (v : String) (name : String) (body : L) (rest : L)
+  | mrep (m : Nat) (name : String) (body : L) (rest : L)
+  | vrep (v : String) (name : String) (body : L) (rest : L)
+  | srep (cnt : Prim) (body : L) (rest : L)
+  | avail (body : L)
   | unknown (why : String)
 deriving DecidableEq, Repr
 
@@ -206,6 +264,24 @@ def L.write : L → Env → String → Rec → Bytes
         (writeElems (fun q => body.write e q x) pfx name 0 (countOf pfx name x) ++ rest.write e pfx x)
   | .wrap body rest, e, pfx, x => encBlob (body.write e pfx x) ++ rest.write e pfx x
   | .hdr rest, e, pfx, x => encHeader (hdrOf pfx x) ++ rest.write e pfx x
+  | .times n name body rest, e, pfx, x =>
+      writeElems (fun q => body.write e q x) pfx name 0 n ++ rest.write e pfx x
+  | .sub name body rest, e, pfx, x => body.write e (pfx ++ name ++ ".") x ++ rest.write e pfx x
+  | .kfld name p _ rest, e, pfx, x => p.encode (x (pfx ++ name)) ++ rest.write e pfx x
+  | .key name p _ rest, e, pfx, x => p.encode (x (pfx ++ name)) ++ rest.write e pfx x
+  | .mopt m name body rest, e, pfx, x =>
+      (if present pfx name x then m :: body.write e pfx x else [0]) ++ rest.write e pfx x
+  | .vopt _ name body rest, e, pfx, x =>
+      (if present pfx name x then 1 :: body.write e pfx x else [0]) ++ rest.write e pfx x
+  | .mrep m name body rest, e, pfx, x =>
+      (if present pfx name x then
+        m :: (encDecimal (countOf pfx name x) ++ writeElems (fun q => body.write e q x) pfx name 0 (countOf pfx name x))
+       else [0]) ++ rest.write e pfx x
+  | .vrep _ name body rest, e, pfx, x =>
+      encDecimal (countOf pfx name x) ++
+        (writeElems (fun q => body.write e q x) pfx name 0 (countOf pfx name x) ++ rest.write e pfx x)
+  | .srep cnt _ rest, e, pfx, x => cnt.encode (.int 0) ++ rest.write e pfx x
+  | .avail body, e, pfx, x => body.write e pfx x
   | .unknown _, _, _, _ => []
 
 /-- what the reader must deliver: the carried fields in wire order -/
@@ -230,6 +306,25 @@ def L.expect : L → Env → String → Rec → Out
         (expectElems (fun q => body.expect e q x) pfx name 0 (countOf pfx name x) ++ rest.expect e pfx x)
   | .wrap body rest, e, pfx, x => body.expect e pfx x ++ rest.expect e pfx x
   | .hdr rest, e, pfx, x => hdrOut pfx (hdrOf pfx x) ++ rest.expect e pfx x
+  | .times n name body rest, e, pfx, x =>
+      expectElems (fun q => body.expect e q x) pfx name 0 n ++ rest.expect e pfx x
+  | .sub name body rest, e, pfx, x => body.expect e (pfx ++ name ++ ".") x ++ rest.expect e pfx x
+  | .kfld name _ _ rest, e, pfx, x => (pfx ++ name, x (pfx ++ name)) :: rest.expect e pfx x
+  | .key name _ _ rest, e, pfx, x => (pfx ++ name, x (pfx ++ name)) :: rest.expect e pfx x
+  | .mopt _ name body rest, e, pfx, x =>
+      (if present pfx name x then (pfx ++ name ++ "?", Val.int 1) :: body.expect e pfx x
+       else [(pfx ++ name ++ "?", Val.int 0)]) ++ rest.expect e pfx x
+  | .vopt _ name body rest, e, pfx, x =>
+      (if present pfx name x then (pfx ++ name ++ "?", Val.int 1) :: body.expect e pfx x
+       else [(pfx ++ name ++ "?", Val.int 0)]) ++ rest.expect e pfx x
+  | .mrep _ name body rest, e, pfx, x =>
+      (pfx ++ name ++ "#", Val.int (countOf pfx name x)) ::
+        (expectElems (fun q => body.expect e q x) pfx name 0 (countOf pfx name x) ++ rest.expect e pfx x)
+  | .vrep _ name body rest, e, pfx, x =>
+      (pfx ++ name ++ "#", Val.int (countOf pfx name x)) ::
+        (expectElems (fun q => body.expect e q x) pfx name 0 (countOf pfx name x) ++ rest.expect e pfx x)
+  | .srep _ _ rest, e, pfx, x => rest.expect e pfx x
+  | .avail body, e, pfx, x => body.expect e pfx x
   | .unknown _, _, _, _ => []
 
 /-- the reader threads its environment of locals; result: fields assigned, final env, rest -/
@@ -313,6 +408,110 @@ def L.read : L → String → RDec
       match rest.read pfx e r with
       | none => none
       | some (o, e', r') => some (hdrOut pfx h ++ o, e', r')
+  | .times n name body rest, pfx => fun e bs =>
+    match readElems (fun q => body.read q) pfx name 0 n e bs with
+    | none => none
+    | some (o1, e1, r1) =>
+      match rest.read pfx e1 r1 with
+      | none => none
+      | some (o2, e2, r2) => some (o1 ++ o2, e2, r2)
+  | .sub name body rest, pfx => fun e bs =>
+    match body.read (pfx ++ name ++ ".") e bs with
+    | none => none
+    | some (o1, e1, r1) =>
+      match rest.read pfx e1 r1 with
+      | none => none
+      | some (o2, e2, r2) => some (o1 ++ o2, e2, r2)
+  | .kfld name p _ rest, pfx => fun e bs =>
+    match p.decode bs with
+    | none => none
+    | some (v, r) =>
+      match rest.read pfx e r with
+      | none => none
+      | some (o, e', r') => some ((pfx ++ name, v) :: o, e', r')
+  | .key name p vn rest, pfx => fun e bs =>
+    match p.decode bs with
+    | none => none
+    | some (v, r) =>
+      match rest.read pfx (e.set vn v.toInt) r with
+      | none => none
+      | some (o, e', r') => some ((pfx ++ name, v) :: o, e', r')
+  | .mopt _ name body rest, pfx => fun e bs =>
+    match Prim.decode .u8 bs with
+    | none => none
+    | some (flag, r) =>
+      if flag.toInt != 0 then
+        match body.read pfx e r with
+        | none => none
+        | some (o1, e1, r1) =>
+          match rest.read pfx e1 r1 with
+          | none => none
+          | some (o2, e2, r2) => some ((pfx ++ name ++ "?", Val.int 1) :: (o1 ++ o2), e2, r2)
+      else
+        match rest.read pfx e r with
+        | none => none
+        | some (o2, e2, r2) => some ((pfx ++ name ++ "?", Val.int 0) :: o2, e2, r2)
+  | .vopt vn name body rest, pfx => fun e bs =>
+    match Prim.decode .u8 bs with
+    | none => none
+    | some (flag, r) =>
+      if flag.toInt != 0 then
+        match body.read pfx (e.set vn flag.toInt) r with
+        | none => none
+        | some (o1, e1, r1) =>
+          match rest.read pfx e1 r1 with
+          | none => none
+          | some (o2, e2, r2) => some ((pfx ++ name ++ "?", Val.int 1) :: (o1 ++ o2), e2, r2)
+      else
+        match rest.read pfx (e.set vn 0) r with
+        | none => none
+        | some (o2, e2, r2) => some ((pfx ++ name ++ "?", Val.int 0) :: o2, e2, r2)
+  | .mrep _ name body rest, pfx => fun e bs =>
+    match Prim.decode .u8 bs with
+    | none => none
+    | some (b, r) =>
+      let ver := b.toInt
+      if ver = 0 then
+        match rest.read pfx (e.set "" 0) r with
+        | none => none
+        | some (o2, e2, r2) => some ((pfx ++ name ++ "#", Val.int 0) :: o2, e2, r2)
+      else
+        match (if ver ≤ 8 then P.run (decDecimalLen ver.toNat) r else P.run decDecimal r) with
+        | none => none
+        | some (n, r0) =>
+          match readElems (fun q => body.read q) pfx name 0 n.toNat (e.set "" ver) r0 with
+          | none => none
+          | some (o1, e1, r1) =>
+            match rest.read pfx e1 r1 with
+            | none => none
+            | some (o2, e2, r2) => some ((pfx ++ name ++ "#", Val.int n.toNat) :: (o1 ++ o2), e2, r2)
+  | .vrep vn name body rest, pfx => fun e bs =>
+    match Prim.decode .u8 bs with
+    | none => none
+    | some (b, r) =>
+      let ver := b.toInt
+      if ver = 0 then
+        match rest.read pfx (e.set vn 0) r with
+        | none => none
+        | some (o2, e2, r2) => some ((pfx ++ name ++ "#", Val.int 0) :: o2, e2, r2)
+      else
+        match (if ver ≤ 8 then P.run (decDecimalLen ver.toNat) r else P.run decDecimal r) with
+        | none => none
+        | some (n, r0) =>
+          match readElems (fun q => body.read q) pfx name 0 n.toNat (e.set vn ver) r0 with
+          | none => none
+          | some (o1, e1, r1) =>
+            match rest.read pfx e1 r1 with
+            | none => none
+            | some (o2, e2, r2) => some ((pfx ++ name ++ "#", Val.int n.toNat) :: (o1 ++ o2), e2, r2)
+  | .srep cnt body rest, pfx => fun e bs =>
+    match cnt.decode bs with
+    | none => none
+    | some (n, r) =>
+      match readElems (fun q => body.read q) pfx "" 0 n.toInt.toNat e r with
+      | none => none
+      | some (_, e1, r1) => rest.read pfx e1 r1
+  | .avail body, pfx => fun e bs => if bs.isEmpty then some ([], e, []) else body.read pfx e bs
   | .unknown _, _ => fun _ _ => none
 
 /-- concatenation of layouts (used when a reader-side version test is resolved statically) -/
@@ -328,6 +527,16 @@ def L.append : L → L → L
   | .rep c n body rest, b => .rep c n body (rest.append b)
   | .wrap body rest, b => .wrap body (rest.append b)
   | .hdr rest, b => .hdr (rest.append b)
+  | .times n nm body rest, b => .times n nm body (rest.append b)
+  | .sub nm body rest, b => .sub nm body (rest.append b)
+  | .kfld nm p k rest, b => .kfld nm p k (rest.append b)
+  | .key nm p v rest, b => .key nm p v (rest.append b)
+  | .mopt m nm body rest, b => .mopt m nm body (rest.append b)
+  | .vopt v nm body rest, b => .vopt v nm body (rest.append b)
+  | .mrep m nm body rest, b => .mrep m nm body (rest.append b)
+  | .vrep v nm body rest, b => .vrep v nm body (rest.append b)
+  | .srep c body rest, b => .srep c body (rest.append b)
+  | .avail body, b => .avail (body.append b)
   | .unknown w, _ => .unknown w
 
 def L.size : L → Nat
@@ -342,6 +551,41 @@ def L.size : L → Nat
   | .rep _ _ body rest => 1 + body.size + rest.size
   | .wrap body rest => 1 + body.size + rest.size
   | .hdr rest => 1 + rest.size
+  | .times _ _ body rest => 1 + body.size + rest.size
+  | .sub _ body rest => 1 + body.size + rest.size
+  | .kfld _ _ _ rest => 1 + rest.size
+  | .key _ _ _ rest => 1 + rest.size
+  | .mopt _ _ body rest => 1 + body.size + rest.size
+  | .vopt _ _ body rest => 1 + body.size + rest.size
+  | .mrep _ _ body rest => 1 + body.size + rest.size
+  | .vrep _ _ body rest => 1 + body.size + rest.size
+  | .srep _ body rest => 1 + body.size + rest.size
+  | .avail body => 1 + body.size
   | .unknown _ => 1
+
+/-- no `avail` at the top level of the sequence (so that appending to it keeps its meaning) -/
+def L.noAvail : L → Bool
+  | .nil => true
+  | .fld _ _ _ rest => rest.noAvail
+  | .lit _ _ rest => rest.noAvail
+  | .skip _ rest => rest.noAvail
+  | .var _ _ rest => rest.noAvail
+  | .ite _ t e rest => t.noAvail && e.noAvail && rest.noAvail
+  | .guard _ rest => rest.noAvail
+  | .opt _ _ rest => rest.noAvail
+  | .rep _ _ _ rest => rest.noAvail
+  | .wrap _ rest => rest.noAvail
+  | .hdr rest => rest.noAvail
+  | .times _ _ _ rest => rest.noAvail
+  | .sub _ _ rest => rest.noAvail
+  | .kfld _ _ _ rest => rest.noAvail
+  | .key _ _ _ rest => rest.noAvail
+  | .mopt _ _ _ rest => rest.noAvail
+  | .vopt _ _ _ rest => rest.noAvail
+  | .mrep _ _ _ rest => rest.noAvail
+  | .vrep _ _ _ rest => rest.noAvail
+  | .srep _ _ rest => rest.noAvail
+  | .avail _ => false
+  | .unknown _ => true
 
 end Layout
